@@ -35,7 +35,9 @@ ASSUMPTIONS = [
     'no eviction and no culling interferes with the comparison against one cache (size limit large, cull_limit 0 in the equivalence stream): a shard '
     'culls against its own share of the limit, which the property allows',
     'timeouts are injected at the shard-method boundary for _remove; real lock timeouts are C14',
-    'NaN, unencodable text and streams are outside the key domain',
+    "unencodable text and streams are outside the key domain; float('nan') (the canonical quiet NaN) is inside it since the repair of C02-F2: "
+    'Disk.put pickles it, so it is routed by adler32 of its pickle like every pickled key (C13_routing_nan); the recorded routing table '
+    '(fixtures/routing.json, released routing) has no NaN entry and is unchanged',
     'two-handle settings histories: a write through a handle whose cull_limit is not 0 is done as one write into every shard at a standing clock '
     '(cull_limit 1000 > number of items), because a shard removes only its own expired / evictable items; size limits are only 0 (always over) or 2**40 '
     '(never over); the value a FanoutCache reports for size_limit (a share) is not compared with the unsharded one',
@@ -52,7 +54,8 @@ PROTO = pickle.HIGHEST_PROTOCOL
 
 
 def native_num(k):
-    return (type(k) is int and -2 ** 63 <= k <= 2 ** 63 - 1) or type(k) is float
+    """stored natively and compared numerically: int64-range ints and floats other than NaN (Disk.put pickles NaN)"""
+    return (type(k) is int and -2 ** 63 <= k <= 2 ** 63 - 1) or (type(k) is float and k == k)
 
 
 def struct_repr(k):
@@ -91,6 +94,7 @@ BYTES = [b'', b'a', b'b', b'\x00', b'1', b'\xff\xfe', b'key', b'x' * 40]
 INTS = [0, 1, -1, 2, 3, 7, 10, 255, 2 ** 31, 2 ** 32 - 2, 2 ** 32 - 1, 2 ** 32, 2 ** 33 - 1, -(2 ** 32) + 1, 2 ** 53, 2 ** 63 - 1, -2 ** 63]
 BIGINTS = [2 ** 63, -2 ** 63 - 1, 2 ** 64, 10 ** 30]
 FLOATS = [0.5, -0.5, 1.5, 2.25, -3.75, 1e-3, 5e-324, float('inf'), float('-inf'), 123456.789]
+NAN_KEYS = [float('nan')]      # not part of fixed_keys(): the recorded table is the released routing, where a NaN key was stored as NULL
 OTHERS = [None, True, False, (), (1,), (1.0,), ('a', 2), (None,), ((1,), 2), (b'a',), frozenset({1})]
 FINDING_KEYS = [0, 0.0, -0.0, 1, 1.0, -1, -1.0, 2, 2.0, 2 ** 53, float(2 ** 53), 10, 10.0]
 HASHSEED_KEYS = [frozenset({'a', 'b', 'c', 'dd'}), (frozenset({'x', 'y', 'zz', 'www'}), 1)]
@@ -112,7 +116,7 @@ def key_class(k):
     if type(k) is int:
         return 'int64' if native_num(k) else 'bigint(pickled)'
     if type(k) is float:
-        return 'float'
+        return 'float' if k == k else 'pickled:float(nan)'
     return 'pickled:' + type(k).__name__
 
 
@@ -121,7 +125,7 @@ def gen_pool(rng, size, finding=False):
         pool = rng.sample(FINDING_KEYS, min(size, len(FINDING_KEYS)))
         return pool + rng.sample(STRS, 2)
     pool = []
-    srcs = [STRS, STRS, BYTES, INTS, INTS, BIGINTS, FLOATS, OTHERS, OTHERS]
+    srcs = [STRS, STRS, BYTES, INTS, INTS, BIGINTS, FLOATS + NAN_KEYS, OTHERS, OTHERS]
     while len(pool) < size:
         src = rng.choice(srcs)
         k = rng.choice(src)
@@ -1071,7 +1075,8 @@ def write_fixture():
 def monitor_processes(ctx, res, hist):
     """Routing in fresh interpreters under different hash seeds: identical, equal to the recorded table, and data
     written by one process is found by every other."""
-    keys = fixed_keys()
+    nfixed = len(fixed_keys())
+    keys = fixed_keys() + NAN_KEYS          # the recorded table covers the first nfixed keys
     d = ctx.scratch('c13px')
     outs = [run_child(SEEDS[0], 'write', d, 8, keys)]
     for s in SEEDS[1:]:
@@ -1083,17 +1088,22 @@ def monitor_processes(ctx, res, hist):
     except (OSError, ValueError) as e:
         fx = None
         res.disagreements.append(fw.Violation('fixture', 'fixtures/routing.json unreadable: %r' % (e,), {}, 'correspondence'))
-    if fx is not None and len(fx['keys']) != len(keys):
-        res.disagreements.append(fw.Violation('fixture', 'fixtures/routing.json has %d keys, the harness list has %d' % (len(fx['keys']), len(keys)), {}, 'correspondence'))
+    if fx is not None and len(fx['keys']) != nfixed:
+        res.disagreements.append(fw.Violation('fixture', 'fixtures/routing.json has %d keys, the harness list has %d' % (len(fx['keys']), nfixed), {}, 'correspondence'))
         fx = None
     for i, k in enumerate(keys):
         hs = [o['hash'][i] for o in outs]
         case = {'check': 'process_routing', 'key': struct_repr(k)[:80], 'key_hex': pickle.dumps(k, protocol=4).hex(),
-                'hash_by_seed': dict(zip(SEEDS, hs)), 'recorded': None if fx is None else fx['keys'][i]['hash']}
+                'hash_by_seed': dict(zip(SEEDS, hs)), 'recorded': None if fx is None or i >= nfixed else fx['keys'][i]['hash']}
         res.count(['proc', case['key_hex']], nontrivial=True)
         if len(set(hs)) != 1:
             res.violations.append(fw.Violation('routing_differs_between_processes', 'Disk.hash(%s) differs between interpreters: %r' % (
                 repr(k)[:40], case['hash_by_seed']), case))
+        elif i >= nfixed:
+            # a key without a recorded entry (NaN): it is pickled, so its hash is adler32 of the optimized pickle
+            if hs[0] != zlib.adler32(pk(k)) & 0xFFFFFFFF:
+                res.violations.append(fw.Violation('routing_changed', 'key %s is routed by hash %d, adler32 of its pickle is %d' % (
+                    repr(k)[:40], hs[0], zlib.adler32(pk(k)) & 0xFFFFFFFF), case))
         elif fx is not None and (fx['keys'][i]['key'] != struct_repr(k)[:80] or fx['keys'][i]['hash'] != hs[0]
                                  or fx['keys'][i]['shards'] != [hs[0] % n for n in SHARD_COUNTS]):
             res.violations.append(fw.Violation('routing_changed', 'key %s is routed by hash %d, the released routing (fixtures/routing.json) is %r' % (
@@ -1182,7 +1192,7 @@ def codec_terms(k):
         h = '{| utf8 := fun _ => [0]; pack_d := fun f => if fl_eqb f %s then %s else [0] |}' % (val.fl_term(k), fw.cbytes(struct.pack('!d', k)))
     else:
         h = '{| utf8 := fun _ => [0]; pack_d := fun _ => [0] |}'
-    if type(k) in (str, bytes, float) or native_num(k):
+    if type(k) in (str, bytes) or native_num(k):
         c = '{| pkk := fun _ => [0]; pkv := fun _ => []; unpk := fun _ => None |}'
     else:
         c = '{| pkk := fun x => if pv_same x %s then %s else [0]; pkv := fun _ => []; unpk := fun _ => None |}' % (t, fw.cbytes(pk(k)))
@@ -1253,7 +1263,7 @@ def pool_codecs(pool):
         t = val.py_term(k)
         if type(k) is str:
             utf8 = 'if zlist_eqb s %s then %s else %s' % (fw.cstr(k), fw.cbytes(k.encode('utf-8')), utf8)
-        elif type(k) is float:
+        elif type(k) is float and k == k:
             packd = 'if fl_eqb f %s then %s else %s' % (val.fl_term(k), fw.cbytes(struct.pack('!d', k)), packd)
         elif type(k) is not bytes and not native_num(k):
             pkk = 'if pv_same x %s then %s else %s' % (t, fw.cbytes(pk(k)), pkk)
@@ -1369,7 +1379,7 @@ def run(ctx, big=False):
         nhist, nops = 2400, 70
     monitor_equivalence(ctx, res, nhist, nops, hist, modelcases)
     monitor_settings(ctx, res, (90 if big else 60) if ctx.quick else 400, 30, hist)
-    keys = fixed_keys() + FINDING_KEYS
+    keys = fixed_keys() + FINDING_KEYS + NAN_KEYS
     if thorough:
         keys = keys + [ctx.rng.randrange(-2 ** 63, 2 ** 63) for _ in range(60)] + \
             [''.join(ctx.rng.choice('abcxyz\xe9€\U0001F600') for _ in range(ctx.rng.randrange(1, 12))) for _ in range(60)] + \
